@@ -57,7 +57,7 @@ fn plan(prop: &str, thorough: bool, seed: u64) -> Plan {
         "C06" => { add(&TRADE, 400, &mut tasks); add(&GRIND, 150, &mut tasks); add(&DEEP, 20, &mut tasks); add(&LEGACY, 150, &mut tasks); add(&BIG, 60, &mut tasks); add(&HOSTILE, 100, &mut tasks); p.marker_matrix = true; }
         "C07" => { add(&HOSTILE, 700, &mut tasks); add(&TRADE, 150, &mut tasks); add(&BIG, 150, &mut tasks); }
         "C08" => { add(&TRADE, 500, &mut tasks); add(&HOSTILE, 300, &mut tasks); add(&ROLES, 150, &mut tasks); p.marker_matrix = true; }
-        "C09" => { add(&GRIND, 500, &mut tasks); add(&TRADE, 300, &mut tasks); add(&BIG, 100, &mut tasks); add(&ROLES, 100, &mut tasks); }
+        "C09" => { add(&GRIND, 500, &mut tasks); add(&TRADE, 300, &mut tasks); add(&BIG, 100, &mut tasks); add(&ROLES, 100, &mut tasks); add(&HOSTILE, 200, &mut tasks); }
         "C10" => { add(&TRADE, 400, &mut tasks); add(&HOSTILE, 150, &mut tasks); add(&GRIND, 80, &mut tasks); p.marker_matrix = true; }
         "C11" => { add(&DEEP, 60, &mut tasks); add(&TRADE, 400, &mut tasks); add(&HOSTILE, 200, &mut tasks); add(&LEGACY, 50, &mut tasks); }
         "C12" => { let mut m = TRADE.clone(); m.name = "modify-heavy"; m.modify_pct = 30; add(&m, 400, &mut tasks); let mut hm = HOSTILE.clone(); hm.modify_pct = 30; add(&hm, 200, &mut tasks); p.modify_matrix = true; }
@@ -325,7 +325,7 @@ fn main() {
     let wall = t0.elapsed().as_secs_f64();
 
     // evidence
-    let props_to_write: Vec<&'static str> = if prop == "ALL" { vec![] } else { vec![prop] };
+    let props_to_write: Vec<&'static str> = if prop == "ALL" || std::env::var("VERIF_NO_EVIDENCE").is_ok() { vec![] } else { vec![prop] };
     for p in props_to_write {
         let ps = st.props.get(p).cloned().unwrap_or_default();
         let mut samples = ps.samples.clone();
